@@ -29,7 +29,7 @@ SameBag(s, t) ==
 OwnKinds == {"contract_called", "gas_paid", "delivery_executed", "transfer_received", "token_executed",
              "trusted_chain_set", "trusted_chain_removed", "token_id_claimed", "ownership_transferred", "app_called"}
 Own(ev) == SelectSeq(ev, LAMBDA e : e.k \in OwnKinds)
-FieldNames == {"trusted", "reg", "regTok", "tokMeta", "bal", "minters", "gas", "fkMeta", "owner", "tokOwner", "tokSelfId", "idcheck"}
+FieldNames == {"trusted", "reg", "regTok", "tokMeta", "bal", "minters", "gas", "fkMeta", "owner", "tokOwner", "tokSelfId", "idcheck", "wiring"}
 Diffs(sp, post) ==
     LET o == Obs(sp) IN
     {f \in FieldNames :
@@ -38,7 +38,7 @@ Diffs(sp, post) ==
           [] f = "bal" -> o.bal # post.bal [] f = "minters" -> o.minters # post.minters
           [] f = "gas" -> o.gas # post.gas [] f = "fkMeta" -> o.fkMeta # post.fkMeta
           [] f = "owner" -> o.owner # post.owner [] f = "tokOwner" -> o.tokOwner # post.tokOwner
-          [] f = "tokSelfId" -> o.tokSelfId # post.tokSelfId [] f = "idcheck" -> o.idcheck # post.idcheck}
+          [] f = "tokSelfId" -> o.tokSelfId # post.tokSelfId [] f = "idcheck" -> o.idcheck # post.idcheck [] f = "wiring" -> o.wiring # post.wiring}
 Verdict(line, r) ==
     IF line.obs.ok # r.ok THEN "outcome"
     ELSE IF r.ok THEN
